@@ -203,14 +203,14 @@ dec!(c17_o4_q_ty15_n8, dec_body, 8, 15);
 dec!(c17_o4_q_ty15_n9_len0, dec_body_len, 9, 15, 5, 0u32);
 dec!(c17_o4_q_ty15_n10_len0, dec_body_len, 10, 15, 5, 0u32);
 dec!(c17_o4_t_ty15_n12_len0, dec_body_len, 12, 15, 5, 0u32);
-dec!(c17_o4_t_ty15_n9_len1, dec_body_len, 9, 15, 5, 1u32);
+dec!(c17_o4_q_ty15_n9_len1, dec_body_len, 9, 15, 5, 1u32);
 dec!(c17_o4_t_ty15_n10_len1, dec_body_len, 10, 15, 5, 1u32);
 dec!(c17_o4_t_ty15_n11_len1, dec_body_len, 11, 15, 5, 1u32);
 dec!(c17_o4_t_ty15_n12_len1, dec_body_len, 12, 15, 5, 1u32);
-dec!(c17_o4_t_ty15_n9_len2, dec_body_len, 9, 15, 5, 2u32);
+dec!(c17_o4_q_ty15_n9_len2, dec_body_len, 9, 15, 5, 2u32);
 dec!(c17_o4_t_ty15_n11_len2, dec_body_len, 11, 15, 5, 2u32);
 dec!(c17_o4_t_ty15_n12_len2, dec_body_len, 12, 15, 5, 2u32);
-dec!(c17_o4_t_ty15_n9_len3, dec_body_len, 9, 15, 5, 3u32);
+dec!(c17_o4_q_ty15_n9_len3, dec_body_len, 9, 15, 5, 3u32);
 dec!(c17_o4_t_ty15_n12_len3, dec_body_len, 12, 15, 5, 3u32);
 dec!(c17_o4_t_ty15_n13_len3, dec_body_len, 13, 15, 5, 3u32);
 dec!(c17_o4_t_ty15_n9_len2147483648, dec_body_len, 9, 15, 5, 2147483648u32);
@@ -224,14 +224,14 @@ dec!(c17_o4_q_ty13_n8, dec_body, 8, 13);
 dec!(c17_o4_q_ty13_n9_len0, dec_body_len, 9, 13, 5, 0u32);
 dec!(c17_o4_q_ty13_n10_len0, dec_body_len, 10, 13, 5, 0u32);
 dec!(c17_o4_t_ty13_n12_len0, dec_body_len, 12, 13, 5, 0u32);
-dec!(c17_o4_t_ty13_n9_len1, dec_body_len, 9, 13, 5, 1u32);
+dec!(c17_o4_q_ty13_n9_len1, dec_body_len, 9, 13, 5, 1u32);
 dec!(c17_o4_t_ty13_n10_len1, dec_body_len, 10, 13, 5, 1u32);
 dec!(c17_o4_t_ty13_n11_len1, dec_body_len, 11, 13, 5, 1u32);
 dec!(c17_o4_t_ty13_n12_len1, dec_body_len, 12, 13, 5, 1u32);
-dec!(c17_o4_t_ty13_n9_len2, dec_body_len, 9, 13, 5, 2u32);
+dec!(c17_o4_q_ty13_n9_len2, dec_body_len, 9, 13, 5, 2u32);
 dec!(c17_o4_t_ty13_n11_len2, dec_body_len, 11, 13, 5, 2u32);
 dec!(c17_o4_t_ty13_n12_len2, dec_body_len, 12, 13, 5, 2u32);
-dec!(c17_o4_t_ty13_n9_len3, dec_body_len, 9, 13, 5, 3u32);
+dec!(c17_o4_q_ty13_n9_len3, dec_body_len, 9, 13, 5, 3u32);
 dec!(c17_o4_t_ty13_n12_len3, dec_body_len, 12, 13, 5, 3u32);
 dec!(c17_o4_t_ty13_n13_len3, dec_body_len, 13, 13, 5, 3u32);
 dec!(c17_o4_t_ty13_n9_len2147483648, dec_body_len, 9, 13, 5, 2147483648u32);
@@ -245,14 +245,14 @@ dec!(c17_o4_q_ty14_n16, dec_body, 16, 14);
 dec!(c17_o4_q_ty14_n17_len0, dec_body_len, 17, 14, 13, 0u32);
 dec!(c17_o4_q_ty14_n18_len0, dec_body_len, 18, 14, 13, 0u32);
 dec!(c17_o4_t_ty14_n20_len0, dec_body_len, 20, 14, 13, 0u32);
-dec!(c17_o4_t_ty14_n17_len1, dec_body_len, 17, 14, 13, 1u32);
+dec!(c17_o4_q_ty14_n17_len1, dec_body_len, 17, 14, 13, 1u32);
 dec!(c17_o4_t_ty14_n18_len1, dec_body_len, 18, 14, 13, 1u32);
 dec!(c17_o4_t_ty14_n19_len1, dec_body_len, 19, 14, 13, 1u32);
 dec!(c17_o4_t_ty14_n20_len1, dec_body_len, 20, 14, 13, 1u32);
-dec!(c17_o4_t_ty14_n17_len2, dec_body_len, 17, 14, 13, 2u32);
+dec!(c17_o4_q_ty14_n17_len2, dec_body_len, 17, 14, 13, 2u32);
 dec!(c17_o4_t_ty14_n19_len2, dec_body_len, 19, 14, 13, 2u32);
 dec!(c17_o4_t_ty14_n20_len2, dec_body_len, 20, 14, 13, 2u32);
-dec!(c17_o4_t_ty14_n17_len3, dec_body_len, 17, 14, 13, 3u32);
+dec!(c17_o4_q_ty14_n17_len3, dec_body_len, 17, 14, 13, 3u32);
 dec!(c17_o4_t_ty14_n20_len3, dec_body_len, 20, 14, 13, 3u32);
 dec!(c17_o4_t_ty14_n21_len3, dec_body_len, 21, 14, 13, 3u32);
 dec!(c17_o4_t_ty14_n17_len2147483648, dec_body_len, 17, 14, 13, 2147483648u32);
@@ -266,14 +266,14 @@ dec!(c17_o4_q_ty11_n8, dec_body, 8, 11);
 dec!(c17_o4_q_ty11_n9_len0, dec_body_len, 9, 11, 5, 0u32);
 dec!(c17_o4_t_ty11_n10_len0, dec_body_len, 10, 11, 5, 0u32);
 dec!(c17_o4_a_ty11_n12_len0, dec_body_len, 12, 11, 5, 0u32);
-dec!(c17_o4_t_ty11_n9_len1, dec_body_len, 9, 11, 5, 1u32);
+dec!(c17_o4_q_ty11_n9_len1, dec_body_len, 9, 11, 5, 1u32);
 dec!(c17_o4_t_ty11_n10_len1, dec_body_len, 10, 11, 5, 1u32);
 dec!(c17_o4_t_ty11_n11_len1, dec_body_len, 11, 11, 5, 1u32);
 dec!(c17_o4_a_ty11_n12_len1, dec_body_len, 12, 11, 5, 1u32);
-dec!(c17_o4_t_ty11_n9_len2, dec_body_len, 9, 11, 5, 2u32);
+dec!(c17_o4_q_ty11_n9_len2, dec_body_len, 9, 11, 5, 2u32);
 dec!(c17_o4_t_ty11_n11_len2, dec_body_len, 11, 11, 5, 2u32);
 dec!(c17_o4_t_ty11_n12_len2, dec_body_len, 12, 11, 5, 2u32);
-dec!(c17_o4_t_ty11_n9_len3, dec_body_len, 9, 11, 5, 3u32);
+dec!(c17_o4_q_ty11_n9_len3, dec_body_len, 9, 11, 5, 3u32);
 dec!(c17_o4_t_ty11_n12_len3, dec_body_len, 12, 11, 5, 3u32);
 dec!(c17_o4_t_ty11_n13_len3, dec_body_len, 13, 11, 5, 3u32);
 dec!(c17_o4_t_ty11_n9_len2147483648, dec_body_len, 9, 11, 5, 2147483648u32);
@@ -287,14 +287,14 @@ dec!(c17_o4_q_ty12_n16, dec_body, 16, 12);
 dec!(c17_o4_q_ty12_n17_len0, dec_body_len, 17, 12, 13, 0u32);
 dec!(c17_o4_t_ty12_n18_len0, dec_body_len, 18, 12, 13, 0u32);
 dec!(c17_o4_a_ty12_n20_len0, dec_body_len, 20, 12, 13, 0u32);
-dec!(c17_o4_t_ty12_n17_len1, dec_body_len, 17, 12, 13, 1u32);
+dec!(c17_o4_q_ty12_n17_len1, dec_body_len, 17, 12, 13, 1u32);
 dec!(c17_o4_t_ty12_n18_len1, dec_body_len, 18, 12, 13, 1u32);
 dec!(c17_o4_t_ty12_n19_len1, dec_body_len, 19, 12, 13, 1u32);
 dec!(c17_o4_a_ty12_n20_len1, dec_body_len, 20, 12, 13, 1u32);
-dec!(c17_o4_t_ty12_n17_len2, dec_body_len, 17, 12, 13, 2u32);
+dec!(c17_o4_q_ty12_n17_len2, dec_body_len, 17, 12, 13, 2u32);
 dec!(c17_o4_t_ty12_n19_len2, dec_body_len, 19, 12, 13, 2u32);
 dec!(c17_o4_t_ty12_n20_len2, dec_body_len, 20, 12, 13, 2u32);
-dec!(c17_o4_t_ty12_n17_len3, dec_body_len, 17, 12, 13, 3u32);
+dec!(c17_o4_q_ty12_n17_len3, dec_body_len, 17, 12, 13, 3u32);
 dec!(c17_o4_t_ty12_n20_len3, dec_body_len, 20, 12, 13, 3u32);
 dec!(c17_o4_t_ty12_n21_len3, dec_body_len, 21, 12, 13, 3u32);
 dec!(c17_o4_t_ty12_n17_len2147483648, dec_body_len, 17, 12, 13, 2147483648u32);
